@@ -92,7 +92,31 @@ func newHarness() *harness {
 	return h
 }
 
-var harnessPool = sync.Pool{New: func() any { return newHarness() }}
+// harnessPool: a fixed free-list (a sync.Pool would be emptied by every GC cycle and the VM rebuilt).
+type hpool struct {
+	mu   sync.Mutex
+	free []*harness
+}
+
+func (p *hpool) Get() any {
+	p.mu.Lock()
+	if n := len(p.free); n > 0 {
+		h := p.free[n-1]
+		p.free = p.free[:n-1]
+		p.mu.Unlock()
+		return h
+	}
+	p.mu.Unlock()
+	return newHarness()
+}
+
+func (p *hpool) Put(h *harness) {
+	p.mu.Lock()
+	p.free = append(p.free, h)
+	p.mu.Unlock()
+}
+
+var harnessPool = &hpool{}
 
 // call invokes a method obtained through GetAttr, the way the VM does for x.name(args).
 func (h *harness) call(t object.Object, name string, args ...object.Object) (object.Object, bool) {
@@ -339,24 +363,16 @@ func (h *harness) evalRealInner(w map[string]object.Object, o Op) (object.Object
 
 // ---------------------------------------------------------------- script path
 
-// runScript evaluates the whole history as one risor program through risor.Eval and returns the rendering
-// of r, seen and every variable after the last operation (or that an error was raised).
-func runScript(g map[string]any, src string) (vals []string, isErr bool, errText string) {
+// evalScript evaluates a whole history as one risor program through risor.Eval.
+func evalScript(g map[string]any, src string) (res object.Object, errText string, panicText string) {
 	defer func() {
 		if p := recover(); p != nil {
-			vals, isErr, errText = nil, true, fmt.Sprintf("PANIC out of risor.Eval: %v", p)
+			res, errText, panicText = nil, "", fmt.Sprintf("panic out of risor.Eval: %v", p)
 		}
 	}()
 	res, err := risor.Eval(context.Background(), src, risor.WithoutDefaultGlobals(), risor.WithGlobals(g))
 	if err != nil {
-		return nil, true, err.Error()
+		return nil, err.Error(), ""
 	}
-	l, ok := res.(*object.List)
-	if !ok {
-		return nil, true, "script did not return a list: " + res.Inspect()
-	}
-	for _, e := range l.Value() {
-		vals = append(vals, renderObj(e))
-	}
-	return vals, false, ""
+	return res, "", ""
 }
